@@ -284,7 +284,7 @@ def oracle(case, io):
             else:
                 v = sum(g * f for g, f in zip(row, forces))
                 sc = sum(abs(g * f) for g, f in zip(row, forces))
-                if abs(io[i] - v) > 1e-9 * max(1.0, sc):
+                if not (abs(io[i] - v) <= 1e-9 * max(1.0, sc)):
                     return f"prediction {i} = {io[i]} is not sum(force * g(distance)) = {v}"
         if fn == "sjac" and len(oe) <= 6:
             sh = 37.5
@@ -317,7 +317,7 @@ def oracle(case, io):
                     acc_e += gee * f_e[j] + gne * f_n[j]
                     acc_n += gne * f_e[j] + gnn * f_n[j]
                     sc += abs(gee * f_e[j]) + abs(gne * f_n[j]) + abs(gne * f_e[j]) + abs(gnn * f_n[j])
-            if fn == "vpred" and (abs(io[0][i] - acc_e) > 1e-9 * max(1.0, sc) or abs(io[1][i] - acc_n) > 1e-9 * max(1.0, sc)):
+            if fn == "vpred" and not (abs(io[0][i] - acc_e) <= 1e-9 * max(1.0, sc) and abs(io[1][i] - acc_n) <= 1e-9 * max(1.0, sc)):
                 return f"vector prediction {i} is not the coupled Green's functions applied to the forces"
         return None
     if fn == "trend":
@@ -328,7 +328,7 @@ def oracle(case, io):
         for k, (x, y) in enumerate(zip(es, ns)):
             v = sum(c * x ** i * y ** j for c, (i, j) in zip(coef, combos))
             sc = sum(abs(c * x ** i * y ** j) for c, (i, j) in zip(coef, combos))
-            if abs(io[k] - v) > 1e-9 * max(1.0, sc):
+            if not (abs(io[k] - v) <= 1e-9 * max(1.0, sc)):
                 return f"Trend prediction {k} = {io[k]} is not the polynomial in the documented monomial order ({v})"
         return None
     if fn == "checker":
@@ -337,7 +337,7 @@ def oracle(case, io):
         w_n = (region[3] - region[2]) / 2 if wn is None else wn
         for k, (x, y) in enumerate(zip(es, ns)):
             v = amp * math.sin(2 * math.pi * x / w_e) * math.cos(2 * math.pi * y / w_n)
-            if abs(io[k] - v) > 1e-7 * max(1.0, abs(amp)) * max(1.0, abs(x / w_e), abs(y / w_n)):
+            if not (abs(io[k] - v) <= 1e-7 * max(1.0, abs(amp)) * max(1.0, abs(x / w_e), abs(y / w_n))):
                 return f"CheckerBoard value {io[k]} != amplitude*sin(2 pi e/w_east)*cos(2 pi n/w_north) = {v}"
         return None
     return None
